@@ -372,11 +372,7 @@ func genRequest(r *vlib.Rand, w *wcfg, st *state) *request {
 	if r.Chance(1, 5) {
 		q.MinSig = 1 + r.Intn(2)
 	}
-	if os.Getenv("VERIF_C13_FORCE_HANG") != "" {
-		q.Rfc, q.MinSig = 1+r.Intn(2), 1+r.Intn(2)
-	} else if q.Rfc != 0 && q.MinSig != 0 && !r.Chance(1, 6) {
-		q.MinSig = 0 // the combination is exercised, but rarely (see FINDINGS: it can hang)
-	}
+	// both together are a configuration error the wallet must refuse (fix 17dacc0c); about 5 % of the requests
 	if r.Chance(1, 4) {
 		q.UseAll = true
 	}
@@ -776,7 +772,7 @@ func genRaw(r *vlib.Rand, w *wcfg, st *state) *request {
 	if r.Chance(1, 4) {
 		q.Rfc = 1 + r.Intn(2)
 	}
-	if r.Chance(1, 6) && q.Rfc == 0 {
+	if r.Chance(1, 6) && (q.Rfc == 0 || r.Chance(1, 3)) {
 		q.MinSig = 1 + r.Intn(2)
 	}
 	if r.Chance(3, 10) {
